@@ -138,7 +138,7 @@ func (l *Lowerer) stmt(s ast.Stmt, label string) {
 	case *ast.DeferStmt:
 		l.deferStmt(x)
 	case *ast.SendStmt:
-		ch, _ := l.tr(x.Chan)
+		ch, cht := l.tr(x.Chan)
 		v, vt := l.tr(x.Value)
 		l.chanSend(ch, x.Chan, v, vt, x)
 		// ghost effects the enclosing contract attaches to this send ("send.<field or variable name>")
@@ -148,11 +148,18 @@ func (l *Lowerer) stmt(s ast.Stmt, label string) {
 			name = "send." + c.Sel.Name
 		case *ast.Ident:
 			name = "send." + c.Name
+		case *ast.CallExpr:
+			// x.Input() <- v: named by the method that yields the channel
+			if sel, ok := ast.Unparen(c.Fun).(*ast.SelectorExpr); ok {
+				name = "send." + sel.Sel.Name
+			}
 		}
 		if name != "" {
 			tn := l.tmp(v.Sort)
 			l.assign(tn, v.Sort, v)
-			l.callSiteNamed(name, map[string]envEntry{"$value": {V(tn, v.Sort), vt}}, x)
+			cn := l.tmp(ch.Sort)
+			l.assign(cn, ch.Sort, ch)
+			l.callSiteNamed(name, map[string]envEntry{"$value": {V(tn, v.Sort), vt}, "$channel": {V(cn, ch.Sort), cht}}, x)
 			after := l.afterCall
 			l.afterCall = nil
 			for _, f := range after {
